@@ -686,3 +686,37 @@ def grid_points(x, y, w, h, n, rng=None, margin=0.02):
                 v += (rng.random() - 0.5) / n * 0.8
             pts.append((x + w * (margin + (1 - 2 * margin) * u), y + h * (margin + (1 - 2 * margin) * v)))
     return pts
+
+
+# ------------------------------------------------------------------ OT-SVG scene
+
+class OtSvgError(Exception):
+    pass
+
+
+def otsvg_doc_for_gid(font, gid):
+    """(doc text, start, end) of the SVG-table record covering gid, or None"""
+    hits = [(d, s, e) for (d, s, e) in font["SVG "].docList if s <= gid <= e]
+    if not hits:
+        return None
+    if len(hits) > 1:
+        raise OtSvgError(f"gid {gid} is covered by {len(hits)} SVG document records")
+    return hits[0]
+
+
+def otsvg_scene(font, gid, palette=None):
+    """SvgScene for the element id=glyph<gid> of the document covering gid (y down, 1 unit = 1 font unit)."""
+    rec = otsvg_doc_for_gid(font, gid)
+    if rec is None:
+        return None
+    doc = rec[0]
+    if isinstance(doc, str):
+        doc = doc.encode("utf-8")
+    root = etree.fromstring(doc)
+    els = [el for el in root.iter() if isinstance(el.tag, str) and el.get("id") == f"glyph{gid}"]
+    if len(els) != 1:
+        raise OtSvgError(f"document for gid {gid} has {len(els)} elements with id glyph{gid}")
+    el = els[0]
+    if el.getparent() is not root:
+        raise OtSvgError(f"glyph{gid} is not a child of the document root")
+    return SvgScene(root, palette=palette, element=el)
